@@ -248,6 +248,24 @@ pub mod lb {
 """
 
 
+TRAIT_ATTRS = """#![allow(unused, non_snake_case, clippy::all)]
+#[diplomat::bridge]
+pub mod tb {
+    #[diplomat::attr(nanobind, disable)]
+    pub trait Tr {
+        #[diplomat::attr(kotlin, disable)]
+        fn one(&self, x: u8) -> u8;
+        fn two(&self);
+    }
+    #[diplomat::opaque]
+    pub struct Op(pub u8);
+    impl Op {
+        pub fn call(&self, t: impl Tr) -> u8 { t.two(); t.one(1) }
+    }
+}
+"""
+
+
 def run(rep, tier):
     wd = rep.wd
     rep.rule = ("program sets = reference graphs over <=3 types enumerated by TLC (kinds, by-value, pointer and method edges incl. cycles) "
@@ -288,6 +306,9 @@ def run(rep, tier):
     # impl's generic list, in a where clause of a method with and WITHOUT a generic list of its own, in a where clause of the impl):
     # the extern "C" wrapper the macro writes has to carry them or rustc refuses the expansion
     run_set(rep, "lifebodies", LIFE_BODIES, wd, events)
+    # ---- set 1c: Diplomat attributes on a TRAIT and on its methods (read by the tool like those on types and methods): rustc must
+    # not see them in the expansion; C is the backend with trait support
+    run_set(rep, "traitattrs", TRAIT_ATTRS, wd, events, backends=("c",))
     # ---- set 2: every shape the gate accepts for the C profile, compiled by the real macro
     g = lib.tlc("gate", "MC_Gate", "gate1_emit.cfg" if tier == "quick" else "gate2_emit.cfg", workers=8, coverage=False, timeout=600)
     gcases = [c for c in g.printed["CASE"] if c["accept"] and not c["urefs"] and set(c["need"]) <= {"option", "callbacks", "traits", "static_slices"}
